@@ -113,7 +113,7 @@ func MakeShared(sh Shape) (*Shared, error) {
 	if err != nil {
 		return nil, err
 	}
-	s.PAuth, err = sharedParser.Authorizer(`operation("read"); resource("file1"); allowed($r) <- resource($r); check if right("read", "read"); check if ["write", "read", "admin"].contains($op), operation($op); allow if allowed("file1"), ["z", "a"].contains("a"); deny if true;`, nil)
+	s.PAuth, err = sharedParser.Authorizer(`operation("read"); resource("file1"); allowed($r) <- resource($r); check if right("read", "read"); check if ["write", "read", "admin"].contains($op), operation($op); allow if allowed("file1"), ["z", "a"].contains("a"); allow if operation("never"); deny if true;`, nil)
 	if err != nil {
 		return nil, err
 	}
@@ -258,6 +258,9 @@ var Ops = []Op{
 			return "rejected: " + err.Error()
 		}
 		a.AddAuthorizer(s.PAuth)
+		// the parsed value holds three policies (a slice with spare capacity): adding one more to
+		// this authorizer must not write into it
+		a.AddPolicy(biscuit.Policy{Kind: biscuit.PolicyKindDeny, Queries: []biscuit.Rule{{Head: biscuit.Predicate{Name: "query"}, Body: []biscuit.Predicate{{Name: "own", IDs: []biscuit.Term{biscuit.Integer(id)}}}}}})
 		err = a.Authorize()
 		return class(err) + fmt.Sprint(hx.FailedChecks(err))
 	}},
